@@ -62,13 +62,45 @@ Record update : Type := mkUpdate {
   u_fin : option header; u_fin_branch : option (list bytes);
   u_bits : bytes; u_sig : signature; u_sigslot : N }.
 
-(* FromLightClientUpdate / FromLightClientFinalityUpdate / FromLightClientOptimisticUpdate (all fork cases alike) *)
+(* FromLightClientUpdate / FromLightClientFinalityUpdate / FromLightClientOptimisticUpdate.
+   Each Go function is a type switch with one struct literal PER FORK CONTAINER TYPE (deneb, capella, altair) and an
+   error for every other type; the model has the same case split, one literal per case, so that a change to a single
+   case of the Go switch is a change to a single case here. *)
+Inductive wire_fork : Type := WDeneb | WCapella | WAltair | WOther.
+Definition E_UNKNOWN_TYPE : N := 13.
+
+Definition from_light_client_update (f : wire_fork) att next nbr fin fbr bits sg slot : res update :=
+  match f with
+  | WDeneb => Ok (mkUpdate att (Some next) (Some nbr) (Some fin) (Some fbr) bits sg slot)
+  | WCapella => Ok (mkUpdate att (Some next) (Some nbr) (Some fin) (Some fbr) bits sg slot)
+  | WAltair => Ok (mkUpdate att (Some next) (Some nbr) (Some fin) (Some fbr) bits sg slot)
+  | WOther => Err E_UNKNOWN_TYPE
+  end.
+Definition from_light_client_finality_update (f : wire_fork) att fin fbr bits sg slot : res update :=
+  match f with
+  | WDeneb => Ok (mkUpdate att None None (Some fin) (Some fbr) bits sg slot)
+  | WCapella => Ok (mkUpdate att None None (Some fin) (Some fbr) bits sg slot)
+  | WAltair => Ok (mkUpdate att None None (Some fin) (Some fbr) bits sg slot)
+  | WOther => Err E_UNKNOWN_TYPE
+  end.
+Definition from_light_client_optimistic_update (f : wire_fork) att bits sg slot : res update :=
+  match f with
+  | WDeneb => Ok (mkUpdate att None None None None bits sg slot)
+  | WCapella => Ok (mkUpdate att None None None None bits sg slot)
+  | WAltair => Ok (mkUpdate att None None None None bits sg slot)
+  | WOther => Err E_UNKNOWN_TYPE
+  end.
+
+(* the shapes the three converters are meant to produce (used by Example / older statements) *)
 Definition from_update att next nbr fin fbr bits sg slot : update :=
   mkUpdate att (Some next) (Some nbr) (Some fin) (Some fbr) bits sg slot.
 Definition from_finality_update att fin fbr bits sg slot : update :=
   mkUpdate att None None (Some fin) (Some fbr) bits sg slot.
 Definition from_optimistic_update att bits sg slot : update :=
   mkUpdate att None None None None bits sg slot.
+
+(* VerifyUpdate / VerifyFinalityUpdate / VerifyOptimisticUpdate: convert, on error return it, else VerifyGenericUpdate
+   against c.Store (defined after verify, below) *)
 
 (* ------------------------------------------------------------------ SSZ merkleization with real SHA-256 *)
 
@@ -283,6 +315,16 @@ Definition process (s : store) (x : step) : store :=
   | _ => s
   end.
 Definition run (s : store) (l : list step) : store := fold_left process l s.
+
+(* VerifyUpdate / VerifyFinalityUpdate / VerifyOptimisticUpdate and ApplyUpdate / ... on a converted wire object *)
+Definition verify_wire (s : store) (conv : res update) (now_slot : N) (genesis_root fork_version : bytes) : res unit :=
+  bind conv (fun u => verify s u now_slot genesis_root fork_version).
+Definition apply_wire (s : store) (conv : res update) : res store :=
+  match conv with
+  | Ok u => apply s u
+  | Err _ => Ok s           (* Apply*Update returns the conversion error, the store is untouched *)
+  | Panic => Panic
+  end.
 
 (* ------------------------------------------------------------------ bootstrap *)
 
